@@ -34,6 +34,9 @@ class C12:
         cov["samples"] = [{"component": "proxy", "events": c.meta["events"]} for c in cases[len(corpus):len(corpus) + 3]]
         cov["corpus_cases"] = len(corpus)
         cov["exhaustive"] = False
+        # a request a TCP backend sends on the connection the proxy opened to it is a request received over TCP: its
+        # response must return on that connection
+        pc.explore_tb(ctx, "C12", ["proxytb-C12"], cov, failures)
         return {"coverage": cov, "failures": failures}
 
 
